@@ -59,6 +59,14 @@ theorem pos_ternB (x : Expr) (h : needParen x.prec precTernaryConditional ternFa
   | bin o _ _ => cases o <;> simp only [Expr.prec, Expr.lvl, falseIsAssignment] at h ⊢ <;> revert h <;> decide
   | _ => simp only [Expr.prec, Expr.lvl, falseIsAssignment] at h ⊢ <;> revert h <;> decide
 
+theorem pos_postfixLike (x : Expr) (side : Side) (hs : side = .Left ∨ side = .Middle)
+    (h : needParen x.prec 2 side = false) : x.lvl ≤ 1 := by
+  rcases hs with rfl | rfl <;>
+  (cases x with
+   | un o _ => cases o <;> simp only [Expr.prec, Expr.lvl] at h ⊢ <;> revert h <;> decide
+   | bin o _ _ => cases o <;> simp only [Expr.prec, Expr.lvl] at h ⊢ <;> revert h <;> decide
+   | _ => simp only [Expr.prec, Expr.lvl] at h ⊢ <;> revert h <;> decide)
+
 /-- the extra parentheses of the conditional's last operand go around an unparenthesised assignment -/
 theorem falseIsAssignment_spec (x : Expr) (h : falseIsAssignment x = true) :
     needParen x.prec precTernaryConditional ternFalseSide = false ∧ x.lvl = 14 := by
@@ -69,15 +77,15 @@ theorem falseIsAssignment_spec (x : Expr) (h : falseIsAssignment x = true) :
 /-! ## Well-formed trees (the shapes the partial theorem covers) -/
 
 /-- every literal prints as one token that reads back as itself; no assignment in the middle of a conditional;
-no subscript / member / call node (not covered by the proof yet) -/
+no call node (not covered by the proof yet) -/
 def WF : Expr → Prop
   | .lit n => LitOk n = true
   | .id _ => True
   | .un _ x => WF x
   | .bin _ l r => WF l ∧ WF r
   | .tern c a b => WF c ∧ WF a ∧ WF b ∧ a.lvl ≠ 14
-  | .sub _ _ => False
-  | .mem _ _ => False
+  | .sub o i => WF o ∧ WF i
+  | .mem o _ => WF o
   | .call _ _ => False
 
 theorem litOk_toks (n : String) (h : LitOk n = true) : toks (litPiecesT n) = [.lit n] := by
@@ -147,6 +155,26 @@ theorem head_fmt : (e : Expr) → WF e → ∀ outer side, ∃ t ts', toks (fmtS
         · have := binLevel_ge op
           simp [Expr.lvl] at h
           omega
+      | .sub o i, hwf =>
+        simp only [fmtSub]
+        have : needParen precArraySubscript topPrec topSide = false := by decide
+        rw [this, wrap_false]
+        obtain ⟨t, ts', h1, h2, h3⟩ := head_fmt o hwf.1 precArraySubscript subObjectSide
+        simp only [toks_append, h1]
+        refine ⟨t, _, by simp; rfl, h2, fun _ => h3 ?_⟩
+        cases hpx : needParen o.prec precArraySubscript subObjectSide with
+        | true => exact Or.inl rfl
+        | false => exact Or.inr (pos_postfixLike o _ (Or.inl rfl) hpx)
+      | .mem o n, hwf =>
+        simp only [fmtSub]
+        have : needParen precMember topPrec topSide = false := by decide
+        rw [this, wrap_false]
+        obtain ⟨t, ts', h1, h2, h3⟩ := head_fmt o hwf precMember memObjectSide
+        simp only [toks_append, h1]
+        refine ⟨t, _, by simp; rfl, h2, fun _ => h3 ?_⟩
+        cases hpx : needParen o.prec precMember memObjectSide with
+        | true => exact Or.inl rfl
+        | false => exact Or.inr (pos_postfixLike o _ (Or.inl rfl) hpx)
       | .tern c a b, hwf =>
         simp only [fmtSub]
         have : needParen precTernaryConditional topPrec topSide = false := by decide
